@@ -15,6 +15,7 @@ import traceback
 
 from sim import boot
 
+SPIN_CPU_S = 12.0      # CPU seconds inside ONE reactor event before it is called a spin (events normally take < 1 ms)
 NCPU = int(os.environ.get("VERIF_WORKERS", "0")) or min(16, os.cpu_count() or 1)
 
 
@@ -68,20 +69,48 @@ def _child(fn, items, wfd, timeout, item_timeout=None):
             out.append({"requeue": True})
         flush_and_exit()
 
+    def on_prof(signum, frame):
+        # CPU-time watchdog (independent of machine load): one reactor event that has been executing for SPIN_CPU_S
+        # seconds of this process's own CPU time is a synchronous loop that never returns to the reactor
+        import time as _t
+        try:
+            R = boot.get_reactor()
+            cpu0 = getattr(R, "_ev_cpu0", None)
+        except Exception:
+            cpu0 = None
+        if cpu0 is not None and _t.process_time() - cpu0 >= SPIN_CPU_S:
+            stack = traceback.extract_stack(frame)
+            inner = None
+            for fs in stack:
+                if fs.filename.startswith(boot.VERIF + os.sep) or fs.filename.startswith(os.path.join(boot.REPO, "src") + os.sep):
+                    inner = fs
+            out.append({"spin": True, "event": getattr(R, "_ev_label", None), "cpu_s": round(_t.process_time() - cpu0, 1),
+                        "in_code_under_test": bool(inner and inner.filename.startswith(os.path.join(boot.REPO, "src") + os.sep)),
+                        "at": ("%s:%s" % (os.path.relpath(inner.filename, boot.REPO), inner.name)) if inner else None,
+                        "where": "".join(traceback.format_list(stack[-8:]))[-1800:]})
+            while len(out) < n:
+                out.append({"requeue": True})
+            flush_and_exit()
+        signal.setitimer(signal.ITIMER_PROF, 4.0)
+
     try:
         faulthandler.enable()
         faulthandler.dump_traceback_later(max(5, timeout - 2), exit=False)
         gc.disable()
         signal.signal(signal.SIGALRM, on_alarm)
+        signal.signal(signal.SIGPROF, on_prof)
         for it in items:
             try:
                 if item_timeout:
                     signal.setitimer(signal.ITIMER_REAL, item_timeout)
+                signal.setitimer(signal.ITIMER_PROF, SPIN_CPU_S + 2.0)
                 r = fn(it)
                 signal.setitimer(signal.ITIMER_REAL, 0)
+                signal.setitimer(signal.ITIMER_PROF, 0)
                 out.append(r)
             except BaseException:
                 signal.setitimer(signal.ITIMER_REAL, 0)
+                signal.setitimer(signal.ITIMER_PROF, 0)
                 out.append({"harness_error": traceback.format_exc(), "item": _brief(it)})
     except BaseException:
         out.append({"harness_error": traceback.format_exc()})
